@@ -39,25 +39,33 @@ Seeded changes /verif/seeded/C20-{1,2,3} (all exit 1):
                                                                     (mode "seqs": two calls in a row with nil / fresh / ONE re-used map, each result
                                                                     judged on its own argument); TV dedup/reused-map:...:trace
 
+  C20-11 size-/hex/base32 fields compared with EqualFold              TV isduplicate/false-positive:hip:encoded-text-case:size-base64:* (`dup sweep`: every
+                                                                    hex/base64/base32hex field with its text in the other letter case, judged on the octets)
+  C20-12 isDuplicateName falls back to the unescaped texts           GEN isduplicate/false-positive:<type>:owner-label-sequence / :name-label-sequence:<field>
+                                                                    (mode "labels": names as label sequences over a . \\); TV ...:label-boundary-vs-dot-octet:*
+
 Mutants (checks/mutants/C20), all exit 1 (stage = where the evidence shows the discrepancy):
   mx-preference-omitted.diff     one field dropped from a generated isDuplicate   GEN isduplicate/false-positive:mx:value:preference ; TV (pairs, sweep one-octet)
   soa-mbox-case-sensitive.diff   a name compared with !=                          GEN isduplicate/false-negative:soa:name-case:mbox ; TV not within 6 000 random events
   owner-case-sensitive.diff      owner compared with !=                           GEN isduplicate/false-negative:<type>:owner-case ; TV
   apl-negation-ignored.diff      APLPrefix.equals forgets Negation                GEN isduplicate/false-positive:apl:value:prefixes-negation ; TV
   dedup-keeps-last.diff          Dedup keeps the last of a group                  GEN dedup/order-or-identity:<type> ; TV dedup/trace:<type>
+  dedup-fastpath-leaves-map.diff reverse of /repo f97e58b (all-distinct call leaves m dirty)  GEN dedup/reused-map:after-an-all-distinct-call:* ; TV ...:trace
   dedup-ttl-not-lowered.diff     survivor keeps its own TTL                       GEN dedup/ttl:<type> ; TV dedup/trace:<type>
 """
 import os, json
 import vp
 
 
-def mc(ctx):
-    ctx.tlc("MC_Dup", workers=4, xmx="3g", timeout=1500, consts={"Mode": '"pairs"', "MaxList": 0})
-    ctx.tlc("MC_Dup", workers=4, xmx="3g", timeout=1500, consts={"Mode": '"triples"', "MaxList": 0})
-    ctx.tlc("MC_Dup", workers=4, xmx="3g", timeout=1500, consts={"Mode": '"lists"', "MaxList": 3 if ctx.quick else 5})
+def mc_jobs(ctx):
+    w = 2 if ctx.quick else 4
+    return [lambda: ctx.tlc("MC_Dup", workers=w, xmx="3g", timeout=1500, consts={"Mode": '"pairs"', "MaxList": 0}),
+            lambda: ctx.tlc("MC_Dup", workers=w, xmx="3g", timeout=1500, consts={"Mode": '"triples"', "MaxList": 0}),
+            lambda: ctx.tlc("MC_Dup", workers=w, xmx="3g", timeout=1500, consts={"Mode": '"lists"', "MaxList": 3 if ctx.quick else 5})]
 
 
-def gen(ctx, binp, nlist, nshards):
+def gen(ctx, nlist):
+    """TLC exports the vectors (in parallel with the model checking of Dup.tla on itself)."""
     paths = []
 
     def g(mode, n):
@@ -66,21 +74,24 @@ def gen(ctx, binp, nlist, nshards):
         if not os.path.exists(p):
             raise vp.Infra("Gen_Dup %s exported nothing" % mode)
         paths.append(p)
-    vp.parallel([lambda: g("pairs", 0), lambda: g("triples", 0), lambda: g("lists", nlist), lambda: g("octets", 0),
-                 lambda: g("seqs", 2 if ctx.quick else 3)], maxpar=5)
+    vp.parallel(mc_jobs(ctx) + [lambda: g("pairs", 0), lambda: g("triples", 0), lambda: g("lists", nlist), lambda: g("octets", 0),
+                                lambda: g("seqs", 2 if ctx.quick else 3), lambda: g("labels", 0)], maxpar=9)
     allp = os.path.join(ctx.out, "vectors-all.ndjson")
     n = 0
     with open(allp, "w") as f:
-        for p in paths:
+        for p in sorted(paths):
             for ln in open(p):
                 f.write(ln)
                 n += 1
     ctx.notes["vectors"] = n
+    return allp
 
+
+def replay_jobs(ctx, binp, allp, nshards):
     def one(sh):
         s = ctx.run_json(binp, ["replay", allp, str(sh), str(nshards)], timeout=7200)
         vp.absorb(ctx, s)
-    vp.parallel([lambda sh=sh: one(sh) for sh in range(nshards)])
+    return [lambda sh=sh: one(sh) for sh in range(nshards)]
 
 
 def kind_key(k):
@@ -104,7 +115,7 @@ def trace_key(e):
     return "isduplicate/%s:%s:%s" % ("false-positive" if e["dup"] else "false-negative", k, e["rel"])
 
 
-def tv(ctx, binp, jobs):
+def tv_jobs(ctx, binp, jobs):
     def one(job):
         name, args, seed = job
         out = os.path.join(ctx.out, "trace-%s.ndjson" % name)
@@ -123,19 +134,21 @@ def tv(ctx, binp, jobs):
                               {"record": {"args": args, "seed": seed}, "i": i, "event": e})
             if not tr.accepted and tr.rejected_at and tr.rejected_at not in bad:
                 raise vp.Infra("Trace_Dup stopped at line %s without a verdict" % tr.rejected_at)
-    vp.parallel([lambda j=j: one(j) for j in jobs])
+    return [lambda j=j: one(j) for j in jobs]
 
 
 def run(ctx):
     binp = ctx.build("dup")
-    mc(ctx)
     if ctx.quick:
-        gen(ctx, binp, 4, 4)
-        tv(ctx, binp, [("r%d" % k, ["record", "3000"], ctx.seed * 1000 + k) for k in range(2)] + [("sweep", ["sweep", "0", "1"], ctx.seed)])
+        allp = gen(ctx, 4)
+        # replay of the vectors and recording + trace validation are independent: side by side
+        vp.parallel(replay_jobs(ctx, binp, allp, 4) +
+                    tv_jobs(ctx, binp, [("r%d" % k, ["record", "3000"], ctx.seed * 1000 + k) for k in range(2)] + [("sweep", ["sweep", "0", "1"], ctx.seed)]))
     else:
-        gen(ctx, binp, 5, 8)
-        tv(ctx, binp, [("r%d" % k, ["record", "12000"], ctx.seed * 1000 + k) for k in range(8)] +
-           [("sweep%d" % k, ["sweep", str(k), "4"], ctx.seed) for k in range(4)])
+        allp = gen(ctx, 5)
+        vp.parallel(replay_jobs(ctx, binp, allp, 8) +
+                    tv_jobs(ctx, binp, [("r%d" % k, ["record", "12000"], ctx.seed * 1000 + k) for k in range(8)] +
+                            [("sweep%d" % k, ["sweep", str(k), "4"], ctx.seed) for k in range(4)]))
     ctx.assumptions += [
         "embedded names of a record = the struct fields tagged dns:\"domain-name\" / \"cdomain-name\" (and the gateway host of IPSECKEY/AMTRELAY when the gateway type says so); their position in the RDATA is found by packing the record with the field replaced by the root",
         "a field is a field of the record's value only if changing it changes the packed octets (GatewayHost of an address-gateway IPSECKEY, address bits beyond an APL/ECS prefix, AMTRELAY gateways under the D bit are not)",
